@@ -15,7 +15,7 @@ from vf.core.state import digest
 ID = "C17"
 RULE = (
     "grids (sizes 3..8 mixed, row width exact and padded) x face order (all F! for F<=5 quick / F<=6 thorough, else "
-    "transpositions+reversal) x node data {identity, generic, int, bool, every unit impulse} x leading dims {(), (2), (2,3)} "
+    "transpositions+reversal) x node data {identity, generic, int, bool, every unit impulse} x leading dims {(), (2), (2,3), (n_node), (n_node+3)} x position of the node dimension {last, first, middle} "
     "x {mean,min,max,median,std,var,sum,prod,all,any} x {face, edge}; plus every unsupported (source kind, destination) pair. "
     "non-trivial = grid with >=2 face sizes (partitioning and padding matter); distinct = (mesh, face order, data, lead, reduction, destination)"
 )
@@ -91,51 +91,75 @@ def run_case(case):
             kinds = ("identity", "generic", "int", "bool") + (("impulses",) if impulses and oi == i0 else ())
             # impulses with the first order of each block only (they probe node identity, not face order)
             for dname, dbase in build.data_alphabet(m.n_node, kinds):
-                for lead in (leads if not dname.startswith("impulse") else [()]):
+                dleads = leads if not dname.startswith("impulse") else [()]
+                if dname == "generic":
+                    dleads = dleads + [(m.n_node,), (m.n_node + 3,)]  # a leading dimension as long as / longer than the node dimension
+                for lead in dleads:
                     data = build.lead_expand(dbase, lead)
-                    da = build.uxda(g, data, "n_node", lead, name="fld")
-                    for agg in AGGS:
-                        for dest in ("face", "edge"):
-                            foc = {"forder": list(order), "width": width, "data": dname, "lead": list(lead), "agg": agg, "dest": dest}
-                            if "only" in case and foc != case["only"]:
-                                continue
-                            focus = dict(case, only=foc)
-                            res["evaluations"] += 1
-                            res["transitions"] += 1
-                            try:
-                                out = getattr(da, "topological_" + agg)(destination=dest)
-                            except Exception as e:
-                                res["violations"].append({"oracle": "agg", "sig": "c17:raises:%s:%s" % (dest, type(e).__name__), "msg": "topological_%s(%s) on %s data raised %r" % (agg, dest, dname, e), "focus": focus})
-                                continue
-                            if dest == "face":
-                                elems = m.faces
-                            else:
-                                if edges is None:
-                                    edges = [tuple(r) for r in np.asarray(g.edge_node_connectivity.values).tolist()]
-                                elems = edges
-                            ref = _ref(data, elems, NPF[agg])
-                            key = digest((case["mesh"], list(order), width, dname, list(lead), agg, dest))
-                            res["states"].append(key)
-                            if mixed:
-                                res["nontrivial"].append(key)
-                            _compare(out, ref, da, g, lead, dest, res, focus, agg, dname)
-                            last = foc
+                    da0 = build.uxda(g, data, "n_node", lead, name="fld")
+                    # where the node dimension sits among the dims: last (as built), first, in the middle
+                    positions = ["last"]
+                    if dname in ("generic", "identity") and len(lead) >= 1 and lead != (2,):
+                        positions += ["first"] + (["middle"] if len(lead) == 2 else [])
+                    for pos in positions:
+                        nd = list(da0.dims)
+                        if pos == "first":
+                            nd = [nd[-1]] + nd[:-1]
+                        elif pos == "middle":
+                            nd = [nd[0], nd[-1]] + nd[1:-1]
+                        da = da0 if pos == "last" else da0.transpose(*nd)
+                        for agg in AGGS:
+                            for dest in ("face", "edge"):
+                                foc = {"forder": list(order), "width": width, "data": dname, "lead": list(lead), "agg": agg, "dest": dest}
+                                if pos != "last":
+                                    foc["node_dim"] = pos
+                                if "only" in case and foc != case["only"]:
+                                    continue
+                                focus = dict(case, only=foc)
+                                res["evaluations"] += 1
+                                res["transitions"] += 1
+                                try:
+                                    out = getattr(da, "topological_" + agg)(destination=dest)
+                                except Exception as e:
+                                    res["violations"].append({"oracle": "agg", "sig": "c17:raises:%s:%s%s" % (dest, type(e).__name__, "" if pos == "last" else ":node-dim-" + pos), "msg": "topological_%s(%s) on %s data (dims %s) raised %r" % (agg, dest, dname, da.dims, e), "focus": focus})
+                                    continue
+                                if dest == "face":
+                                    elems = m.faces
+                                else:
+                                    if edges is None:
+                                        edges = [tuple(r) for r in np.asarray(g.edge_node_connectivity.values).tolist()]
+                                    elems = edges
+                                ref = _ref(data, elems, NPF[agg])
+                                key = digest((case["mesh"], list(order), width, dname, list(lead), agg, dest, pos))
+                                res["states"].append(key)
+                                if mixed:
+                                    res["nontrivial"].append(key)
+                                _compare(out, ref, da, g, lead, dest, res, focus, agg, dname, pos)
+                                last = foc
     res["axes"] = {"mesh": {case["mesh"]: res["evaluations"]}, "orders": {"%d" % len(orders): i1 - i0}}
     res["sample"] = {"mesh": case["mesh"], "last": last}
     return res
 
 
-def _compare(out, ref, da, g, lead, dest, res, focus, agg, dname):
+def _compare(out, ref, da, g, lead, dest, res, focus, agg, dname, pos="last"):
     import uxarray as ux
 
     V = res["violations"]
-    want_dims = tuple("d%d" % i for i in range(len(lead))) + ("n_" + dest,)
+    std_dims = tuple(d for d in da.dims if d != "n_node") + ("n_" + dest,)
+    want_dims = tuple(("n_" + dest) if d == "n_node" else d for d in da.dims)  # destination dimension in place of the node dimension
     if not isinstance(out, ux.UxDataArray):
         V.append({"oracle": "type", "sig": "c17:type:%s" % dest, "msg": "result is %s" % type(out).__name__, "focus": focus})
         return
     if tuple(out.dims) != want_dims:
-        V.append({"oracle": "dims", "sig": "c17:dims:%s" % dest, "msg": "dims %s, expected %s" % (out.dims, want_dims), "focus": focus})
-    if out.uxgrid is not g:
+        V.append({"oracle": "dims", "sig": "c17:dims:%s%s" % (dest, "" if pos == "last" else ":node-dim-" + pos), "msg": "dims %s, expected %s" % (out.dims, want_dims), "focus": focus})
+        return
+    if pos != "last":
+        try:
+            out = out.transpose(*std_dims)
+        except Exception as e:
+            V.append({"oracle": "dims", "sig": "c17:dims:%s:node-dim-%s" % (dest, pos), "msg": "result cannot be transposed to %s: %r" % (std_dims, e), "focus": focus})
+            return
+    if getattr(out, "uxgrid", None) is not g:
         V.append({"oracle": "grid", "sig": "c17:grid:%s" % dest, "msg": "result is not attached to the source grid", "focus": focus})
     vals = np.asarray(out.values)
     if vals.shape != ref.shape:
